@@ -343,6 +343,71 @@ def check_fix_window(case):
     return out
 
 
+def check_fix_window_split(case):
+    """C15 for the split set-up (documented parameter fix_time_window of setup_split_optim_problem): the window refers to the
+    steps of the whole horizon and the previous solution to the variables of the whole split problem"""
+    eao = eao_mod()
+    out = []
+    start = pd.Timestamp('2021-01-01')
+    tg = eao.assets.Timegrid(start, start + pd.Timedelta(case['T'], 'h'), freq='h')
+    rng = np.random.RandomState(case['pseed'])
+    price = rng.uniform(1, 20, tg.T).round(2)
+    n1, n2 = eao.assets.Node('a'), eao.assets.Node('b')
+
+    def mkpf():
+        assets = [eao.assets.SimpleContract(name='buy', nodes=n1, price='p', min_cap=-3., max_cap=3.),
+                  eao.assets.Storage(name='s', nodes=n1, size=3., cap_in=1., cap_out=1., start_level=0., end_level=0., eff_in=case['eff'])]
+        if case['transport']:
+            assets += [eao.assets.Transport(name='t', nodes=[n1, n2], min_cap=0., max_cap=2., efficiency=0.9),
+                       eao.assets.SimpleContract(name='load', nodes=n2, min_cap=-1., max_cap=-1.)]
+        return eao.portfolio.Portfolio(assets)
+    params = dict(case)
+    op = mkpf().setup_split_optim_problem({'p': price}, tg, interval_size=case['interval'])
+    res = op.optimize()
+    if isinstance(res, str):
+        return out
+    x_prev = np.asarray(res.x).copy()
+    a, b = case['window']
+    mask = np.zeros(tg.T, bool)
+    mask[a:b] = True
+    if case['wkind'] == 'mask':
+        I = mask.copy()
+    elif case['wkind'] == 'index':
+        I = np.arange(a, b)
+    else:   # date: all steps up to and including that grid point
+        I = tg.timepoints[b - 1].to_pydatetime()
+        mask[:] = False
+        mask[:b] = True
+    price2 = price[::-1].copy() if case['newprices'] else price
+    try:
+        op2 = mkpf().setup_split_optim_problem({'p': price2}, tg, interval_size=case['interval'], fix_time_window={'I': I, 'x': x_prev.copy()})
+        ref = mkpf().setup_split_optim_problem({'p': price2}, tg, interval_size=case['interval'])
+    except Exception as e:
+        out.append(fail('C15.split.no_raise', 'portfolio:Portfolio.setup_split_optim_problem', case, params, f'{type(e).__name__}: {str(e)[:160]}'))
+        return out
+    l2 = np.concatenate([o.l for o in op2.ops])
+    u2 = np.concatenate([o.u for o in op2.ops])
+    lr = np.concatenate([o.l for o in ref.ops])
+    ur = np.concatenate([o.u for o in ref.ops])
+    m = op2.mapping
+    in_window = np.zeros(len(l2), bool)
+    for i, t in zip(m.index, m['time_step']):
+        if mask[int(t)]:
+            in_window[int(i)] = True
+    pinned = np.isclose(l2, x_prev) & np.isclose(u2, x_prev)
+    bad_in = [j for j in range(len(l2)) if in_window[j] and not pinned[j]]
+    bad_out = [j for j in range(len(l2)) if not in_window[j] and not (np.isclose(l2[j], lr[j]) and np.isclose(u2[j], ur[j]))]
+    if bad_in:
+        out.append(fail('C15.split.window_variables_fixed', 'portfolio:Portfolio.setup_split_optim_problem', case, params, f'variables of window steps not pinned to the previous solution: {bad_in[:8]}'))
+    if bad_out:
+        out.append(fail('C15.split.other_variables_free', 'portfolio:Portfolio.setup_split_optim_problem', case, params, f'variables outside the window changed bounds: {bad_out[:8]}'))
+    if not case['newprices']:
+        r2 = op2.optimize()
+        if isinstance(r2, str) or abs(r2.value - res.value) > 1e-4 * max(1, abs(res.value)):
+            out.append(fail('C15.split.value_unchanged', 'portfolio:Portfolio.setup_split_optim_problem', case, params, f'{getattr(r2, "value", r2)} vs {res.value}'))
+    return out
+
+
 # ------------------------------------------------------------------------------------------------ C18 nodal prices
 def check_nodal_price(case):
     eao = eao_mod()
